@@ -20,5 +20,7 @@ func init() {
 			"meta, err := pool.Main(r.Context())\n\tif err != nil {", "meta, err := pool.Main(r.Context())\n\tif req.Thresh == 0 && err != nil {", "C19-E1", "handlePoolPost"},
 		Mutant{"C18", "c18-nulls-emit-error-dead-on-a-path", "vng/nulls.go", "NullsEncoder.Emit",
 			"if err := n.values.Emit(w); err != nil {\n\t\treturn err\n\t}", "if err := n.values.Emit(w); n.count == 0 && err != nil {\n\t\treturn err\n\t}", "C18-E1", "NullsEncoder).Emit"},
+		Mutant{"C20", "c20-build-forgets-cast-to-union", "runtime/sam/expr/shaper.go", "step.build",
+			"\tcase castToUnion:\n\t\tzed.BuildUnion(b, s.toTag, in)\n\t\treturn s.toType\n", "", "C20-K1", "castToUnion"},
 	)
 }
